@@ -76,6 +76,10 @@ def make_ctx(kind, world, loaded):
     elif kind == "none":
         ctx.check_hostname = False
         ctx.verify_mode = ssl.CERT_NONE
+    elif kind == "u3-checkhost":
+        # settings ported from stdlib code: the caller switches hostname checking ON on the context it hands over
+        # (the stdlib context has it on already; a pyOpenSSL context carries the flag but never checks names itself)
+        ctx.check_hostname = True
     elif kind != "u3":
         raise HarnessError(kind)
     if loaded:
@@ -90,7 +94,7 @@ def reference(case, cert, world):
     if reqs is not None:
         eff = reqs
     elif ctxkind is not None:
-        eff = {"u3": "CERT_REQUIRED", "nocheck-required": "CERT_REQUIRED", "none": "CERT_NONE"}[ctxkind]
+        eff = {"u3": "CERT_REQUIRED", "u3-checkhost": "CERT_REQUIRED", "nocheck-required": "CERT_REQUIRED", "none": "CERT_NONE"}[ctxkind]
     else:
         eff = "CERT_REQUIRED"
     # the chain is good iff the issuer is among the CAs the SETTINGS say are to be used: the configured ones
@@ -125,7 +129,7 @@ def reference(case, cert, world):
     # configuration conflict: an SSLContext that still has check_hostname on cannot be switched to
     # CERT_NONE (ssl raises ValueError when urllib3 applies cert_reqs to the supplied context - also to
     # the proxy's context on the https-proxy route). Nothing is sent; which exception is left open.
-    if case["backend"] == "ssl" and case["cert_reqs"] == "CERT_NONE" and (case["ssl_context"] == "u3" or case["route"] == "https-proxy"):
+    if case["backend"] == "ssl" and case["cert_reqs"] == "CERT_NONE" and (case["ssl_context"] in ("u3", "u3-checkhost") or case["route"] == "https-proxy"):
         return "conflict", detail
     if any(not ok for _, ok in demanded):
         return "refuse", detail
@@ -314,7 +318,7 @@ def lattice(thorough, backend):
     shs = [None, "san", "nonsan"]
     ctxs = [None, "u3", "nocheck-required", "none"]
     if backend == "pyopenssl":
-        ctxs = [None, "u3"]
+        ctxs = [None, "u3", "u3-checkhost"]
         # ca_cert_data given as str is a stdlib-ssl convention; TLS-in-TLS is documented as unsupported
         trusts = ["file", "none"]
     seen = set()
